@@ -1,4 +1,5 @@
 import SodiumVerif.Model.GcScript
+import SodiumVerif.Model.SchedScript
 
 open SodiumVerif
 
@@ -9,9 +10,17 @@ partial def gcLoop (h : IO.FS.Stream) (out : IO.FS.Stream) (s : GcScript.St) : I
   out.putStrLn o
   gcLoop h out s'
 
+partial def nodeLoop (h : IO.FS.Stream) (out : IO.FS.Stream) (s : SchedScript.S) : IO Unit := do
+  let line ← h.getLine
+  if line.isEmpty then return ()
+  let (s', o) := SchedScript.step s line
+  out.putStrLn o
+  nodeLoop h out s'
+
 def main (args : List String) : IO UInt32 := do
   let stdin ← IO.getStdin
   let stdout ← IO.getStdout
   match args with
   | ["gc"] => gcLoop stdin stdout {}; return 0
+  | ["node"] => nodeLoop stdin stdout {}; return 0
   | _ => IO.eprintln "usage: driver gc|node|api|spec < script"; return 2
